@@ -1,4 +1,5 @@
 import TakVerif.Proofs.MCTSPolicyInv
+import TakVerif.Proofs.MCTSPolicyWin
 import TakVerif.Proofs.HeapValue
 import TakVerif.Props.C18
 import TakVerif.Proofs.Outcome
@@ -159,6 +160,85 @@ theorem fixed_select_on_pinnedPos (rnd : Nat → Nat) (k : Nat) :
     | .error (.illegal _) => uniformSelect noBasis rnd pinnedPos k
     | .error e => .error e) = (.ok (q, k) : R (Pos × Nat))
   rw [hq]
+
+/-! ## soundness of `findPlaceWins` -/
+
+/-- the move wins by a road for `col`, in the engine's words (`WinDetails`) and in the rule book's (`Spec.RoadPath`:
+a chain of adjacent squares topped by `col`'s flats/capstones joining two opposite edges) -/
+def RoadWin (q : Pos) (col : Color) : Prop :=
+  q.winDetails.over = true ∧ q.winDetails.winner = col ∧ q.winDetails.reason = .road ∧
+    Spec.RoadPath (Spec.abs q) col
+
+/-- **A square reported by `findPlaceWins` completes a road.**  On every well-formed board (C02's `WFBoard`: sizes
+3..8, group lists = `analyze`) from ply 2 on: every set bit `s` of the word `placeWinMove` computes
+(`findPlaceWins` on the mover's flats and capstones, the empty squares and the mover's groups) is an empty square of
+the board, and the flat placement on it — `placeWinMove`'s proposal — as well as the capstone placement — the fix of
+8daad40 — is accepted whenever that piece is in reserve and then ends the game with a road win of the mover.
+(Soundness w.r.t. C02's road predicate.  Completeness — every road-completing empty square is reported — is not
+proved and not needed: a missed square costs a rollout its shortcut, nothing else.  Before ply 2 the placed flat is the
+opponent's, so there a reported square is merely a legal move, not a win: the tie shows both, `move.nowin.opening-ply`.) -/
+theorem placeWin_square_completes_road (basis : Array W) (p : Pos) (wf : Roads.WFBoard p) (hply : 2 ≤ p.move)
+    (s : Nat) (hrep : (placeWinsMask p.c p).getLsbD s = true) :
+    s < p.cfg.size * p.cfg.size ∧ (p.white ||| p.black).getLsbD s = false ∧
+    (C19.stonesOf p p.toMove ≠ 0#8 → ∃ q,
+      p.apply basis ⟨((s % p.cfg.size : Nat) : Int), ((s / p.cfg.size : Nat) : Int), Facts.mtPlaceFlat, 0⟩ = .ok q ∧
+      RoadWin q p.toMove) ∧
+    (C19.capsOf p p.toMove ≠ 0#8 → ∃ q,
+      p.apply basis ⟨((s % p.cfg.size : Nat) : Int), ((s / p.cfg.size : Nat) : Int), Facts.mtPlaceCapstone, 0⟩ = .ok q ∧
+      RoadWin q p.toMove) := by
+  obtain ⟨hs, hemp⟩ := reported_empty p wf s hrep
+  obtain ⟨hflat, hcap⟩ := place_kind basis p wf hply p.toMove rfl s hs hemp
+  have hc : p.toMove ≠ .none := by rcases C19.toMove_cases p with h | h <;> rw [h] <;> decide
+  have fin : ∀ q, C19.After p q 64 s (C19.own p p.toMove) (C19.own q p.toMove) (C19.own p p.toMove.flip)
+      (C19.own q p.toMove.flip) → RoadWin q p.toMove := by
+    intro q haft
+    obtain ⟨⟨a, b, c⟩, hany, wfq⟩ := reported_wins p q wf p.toMove rfl s hrep haft
+    exact ⟨a, b, c, (Roads.groups_any_iff_roadPath q wfq p.toMove hc).mp hany⟩
+  refine ⟨hs, hemp, fun h => ?_, fun h => ?_⟩
+  · obtain ⟨q, h1, h2⟩ := hflat h
+    exact ⟨q, h1, fin q h2⟩
+  · obtain ⟨q, h1, h2⟩ := hcap h
+    exact ⟨q, h1, fin q h2⟩
+
+/-- **When `findPlaceWins` reports a square, the fixed `PlaceWins.Select` wins on the spot**: on an unfinished
+invariant position from ply 2 on, it returns — without drawing a random number — the successor by the flat (or, with
+no flat in reserve, the capstone) on the lowest reported square, and that successor is a road win of the mover. -/
+theorem placeWins_select_wins (basis : Array W) (n : Nat) (rnd : Nat → Nat) (p : Pos) (k : Nat)
+    (hi : PolicyInv basis n p) (han : p.analyze = some p) (hply : 2 ≤ p.move) (hno : p.gameOver.1 = false)
+    (hrep : placeWinsMask (Gen.precompute n) p ≠ 0#64) :
+    ∃ q, placeWinsSelect basis (Gen.precompute n) rnd p k = .ok (q, k) ∧ RoadWin q p.toMove := by
+  obtain ⟨wfb, _⟩ := C19.wf_bridge basis p hi.wf han
+  have hn : 3 ≤ n ∧ n ≤ 8 := by rw [← hi.size]; exact ⟨hi.wf.size_ge, hi.wf.size_le⟩
+  have hc : Gen.precompute n = p.c := by rw [hi.wf.consts, hi.size]
+  obtain ⟨s, _, hs, _, hmv⟩ := (placeWinMove_spec n hn p).2 hrep
+  rw [hc] at hs
+  rw [← hi.size] at hmv
+  obtain ⟨_, _, hflat, hcap⟩ := placeWin_square_completes_road basis p wfb hply s hs
+  obtain ⟨rw_, rb_⟩ := C19.reserves_of_not_over p hno
+  have hres : C19.stonesOf p p.toMove ≠ 0#8 ∨ C19.capsOf p p.toMove ≠ 0#8 := by
+    rcases C19.toMove_cases p with h | h <;> rw [h]
+    · exact rw_
+    · exact rb_
+  have hty : (Facts.mtPlaceFlat ≠ 0) := by decide
+  unfold placeWinsSelect
+  rw [hi.size] at hmv
+  simp only [hmv, ne_eq, hty, not_false_eq_true, if_true]
+  rw [← hi.size]
+  by_cases h0 : C19.stonesOf p p.toMove = 0#8
+  · obtain ⟨w, hw⟩ := place_flat_refused basis p hply p.toMove rfl
+      ((s % p.cfg.size : Nat) : Int) ((s / p.cfg.size : Nat) : Int) h0
+    have hcp : C19.capsOf p p.toMove ≠ 0#8 := by
+      rcases hres with h | h
+      · exact absurd h0 h
+      · exact h
+    obtain ⟨q, h1, h2⟩ := hcap hcp
+    refine ⟨q, ?_, h2⟩
+    simp only [hw, h1]
+  · obtain ⟨q, h1, h2⟩ := hflat h0
+    refine ⟨q, ?_, h2⟩
+    simp only [h1]
+
+example : (placeWinsMask pinnedPos.c pinnedPos).getLsbD 4 = true ∧ pinnedPos.wfBoardB = true := by decide +kernel
 
 /-! ## rollouts -/
 
